@@ -81,6 +81,38 @@ def _monitor(spec, out0):
                                             {"base": out0.get("objective"), "with_extra": out2.get("objective")}))
                 except Exception:
                     pass
+    cons_key = "subpath_constraints" if cname in models.DAG_CLASSES else "subset_constraints"
+    if args.get(cons_key):
+        # constraints only restrict: whatever is solved with them is solved without them, and a
+        # minimised objective cannot be better with them than without
+        w2 = copy.deepcopy(world)
+        for k_ in (cons_key, cons_key + "_coverage", "subpath_constraints_coverage_length"):
+            w2["args"].pop(k_, None)
+        out2, _, _ = mr.run(w2, spec["sim"], seed=1)
+        counters["monitor:without_constraints"] = 1
+        if not out2.get("construct_exc") and not out2.get("solve_exc"):
+            if out0["solved"] and not out2["solved"]:
+                vs.append(Violation(ID, "C10.solved_only_with_constraints", cname, {"objective_with": out0.get("objective")}))
+            elif out0["solved"] and out2["solved"]:
+                try:
+                    if float(out0["objective"]) < float(out2["objective"]) - 1e-6 * max(1.0, abs(float(out2["objective"]))):
+                        vs.append(Violation(ID, "C10.better_objective_with_constraints", cname,
+                                            {"with": out0.get("objective"), "without": out2.get("objective")}))
+                except Exception:
+                    pass
+        # the optimum is over exactly the solutions satisfying the constraints: the optional safety
+        # optimisations (which treat constraint edges as trusted) must not change it
+        if not args.get("additional_starts") and not args.get("additional_ends") and not args.get("solution_weights_superset"):
+            from props import c05
+            w3 = copy.deepcopy(world)
+            w3["args"]["optimization_options"] = c05.off_flags(cname)
+            out3, _, _ = mr.run(w3, spec["sim"], seed=1)
+            counters["monitor:safety_off"] = 1
+            if not out3.get("construct_exc") and not out3.get("solve_exc"):
+                if out3["solved"] != out0["solved"] or (out0["solved"] and not _close(out3.get("objective"), out0.get("objective"))):
+                    vs.append(Violation(ID, "C10.optimum_differs_from_unoptimised_model", cname,
+                                        {"with_options": [out0["solved"], out0.get("objective")], "all_optimisations_off": [out3["solved"], out3.get("objective")],
+                                         "options": args.get("optimization_options")}))
     return vs, counters
 
 
